@@ -43,6 +43,29 @@ CONFIGS = {
                 bp=0, qp=2, pairs=2),
     "K14": dict(lend=dict(req="0.5", isym="same", period=7, pct="2.5"), fee=(1, 0), liq=(25, 10),
                 init=(("USD", 500), ("BTC", 2)), bp=2, qp=2),
+    # a minimum fee above the proceeds of small sells: the sell reserves quote funds too, released as it fills / closes
+    "K23": dict(lend=None, fee=("0.25", 250), liq=(25, 10), init=(("USD", 1000), ("BTC", 5)), bp=0, qp=2),
+    # the pair trades on a finer grid than the precision configured for its symbols
+    "K24": dict(lend=None, fee=("0.25", 0), liq=(25, 10), init=(("USD", 1000), ("BTC", 5)), bp=2, qp=4,
+                sym_prec={"USD": 2, "BTC": 2}),
+    "K25": dict(lend=dict(req="0.5", isym="USD", period=3), fee=None, liq=None, init=(("USD", 300), ("BTC", 1)), bp=0, qp=4,
+                sym_prec={"USD": 2}),
+    # precision configured through Exchange(default_pair_info=...) only
+    "K26": dict(lend=None, fee=(1, 0), liq=(33, 0), init=(("USD", 2000), ("BTC", 30)), bp=0, qp=0, dpi=True),
+    "K27": dict(lend=None, fee=("0.25", 2), liq=(25, 10), init=(("USD", "250.5"), ("BTC", 3)), bp=1, qp=3, dpi=True),
+    # a volume limit of 1% (and bars granting 3 / 2.5 / 10 / 0 units at that limit)
+    "K28": dict(lend=None, fee=None, liq=(1, 0), init=(("USD", 5000), ("BTC", 30)), bp=0, qp=2, liq_shapes=(16, 17, 18, 4)),
+    # pair precisions derived from different symbol precisions, the base one finer
+    "K29": dict(lend=None, fee=(1, 0), liq=(33, 0), init=(("USD", 2000), ("BTC", 30)), bp=2, qp=1, no_pair_info=True),
+    # default lending conditions (lax, cheap, interest in USD) next to per-symbol ones (strict): the per-symbol ones apply
+    "K30": dict(lend=dict(req="1", isym="same", period=10, default=dict(req="0.2", pct=1)), fee=None, liq=None,
+                init=(("USD", 300),), bp=0, qp=2),
+    # roll-back of an auto-borrow request at its second loan, with a minimum interest and the margin level at exactly 100%
+    "K31": dict(lend=dict(req="0.5", isym="USD", period=10, minint=1, req_by_symbol={"BTC": "0"}), fee=("0.25", 500), liq=None,
+                init=(("USD", 100),), bp=0, qp=2),
+    # interest on every loan charged in BTC: for a USD loan the conversion goes through the inverse of BTC/USD
+    "K33": dict(lend=dict(req="0.5", isym="BTC", period=1, pct=3), fee=None, liq=None, init=(("USD", 1000), ("BTC", 1)),
+                bp=8, qp=2),
 }
 
 
